@@ -177,6 +177,45 @@ def multi_letter_and_incremental(tier, rng, rep):
             return
 
 
+@bounded(P, "labels_of_unequal_length", functions=F_ALL, note="automata whose labels are words of different lengths, so that distinct accepting paths may spell the same word: each word once per accepting path, with its end state")
+def labels_of_unequal_length(tier, rng, rep):
+    N = 200 if tier == 'thorough' else 40
+    rep.rule = ("fixed: 0-a->1-ba->3, 0-ab->2-a->4 (two paths spell 'aba'); random automata on 3..5 states, labels drawn from {a, b, ab, ba, aa, bb, aba} (distinct per state); "
+                "lengths 0..3; every option combination of check_enumeration; end states compared as multisets of (word, state); non-trivial = two paths with one spelling")
+    rep.bound = f"1 + {N} automata"
+    pool = ["a", "b", "ab", "ba", "aa", "bb", "aba"]
+    cases = [{0: {"a": 1, "ab": 2}, 1: {"ba": 3}, 2: {"a": 4}, 3: {}, 4: {}}]
+    for _ in range(N):
+        nv = int(rng.integers(3, 6))
+        d = {}
+        for v in range(nv):
+            labs = rng.choice(pool, size=int(rng.integers(0, 4)), replace=False)
+            d[v] = {str(l): int(rng.integers(0, nv)) for l in labs}
+        cases.append(d)
+    for t, d in enumerate(cases):
+        inp = {"graph_dict": {str(k): v for k, v in d.items()}}
+        M = Model.from_graph_dict(d)
+        def body():
+            if not check_enumeration(rep, d, [0], 3, inp, memo_reuse=(t % 4 == 0)):
+                return
+            A = fsa.FSA(copy.deepcopy(d), [0])
+            for s in sorted(M.V):
+                for n in range(0, 4):
+                    want = sorted(("".join(w), e) for w, e in M.paths(s, n))
+                    got = sorted(A.enumerate_fixed_length_paths(n, start_vertex=s, with_states=True))
+                    if got != want:
+                        rep.fail("own_enumeration_lists_each_path_with_its_end_state", f"from {s}, {n} edges: {got} vs {want}", {**inp, "start": s, "length": n}); return
+                    wantw = sorted("".join(w) for m in range(n + 1) for w, e in M.paths(s, m))
+                    goty = sorted(A.enumerate_words(n, start_vertex=s))
+                    if goty != wantw:
+                        rep.fail("agrees_with_enumerate_words", f"from {s}, up to {n} edges: {goty} vs {wantw}", {**inp, "start": s, "length": n}); return
+        rep.attempt("enumeration_runs", inp, body)
+        words = ["".join(w) for w, e in M.paths(0, 2)] + ["".join(w) for w, e in M.paths(0, 3)]
+        rep.case(key=repr(d), nontrivial=len(set(words)) < len(words), sample=inp if t == 0 else None)
+        if len(rep.failures) >= 3:
+            return
+
+
 @bounded(P, "builtin_random_and_free", functions=F_ALL, note="built-in automata, random automata up to 8 states / 4 labels, freely reduced enumeration")
 def builtin_random_and_free(tier, rng, rep):
     rep.rule = ("built-in automata over <= 4 generator letters (length <= 3); random automata 4..8 states over 2..4 labels (length <= 3); freely_reduced_elements and free_words_* for 1..2 generators "
